@@ -283,7 +283,7 @@ def eval_cases(run, impl, model, wd, hist, cases, tag):
         idx[k].append(ci)
     import time
     t0 = time.time()
-    om = W.par_lines(model, chunks_m)          # the model reads the pristine copy first
+    om = W.par_lines(W.big_stack(model), chunks_m)          # the model reads the pristine copy first
     t1 = time.time()
     oi = W.par_lines(impl, chunks_i)
     run.cov["t_model"] = round(run.cov.get("t_model", 0) + t1 - t0, 1)
@@ -389,7 +389,7 @@ def do_history(run, impl, model, wd, name, crc, ops, ncut, nflip, corpus_cases=N
     wal = open(os.path.join(d, "db-wal"), "rb").read()
     hist = {"dir": d, "name": name, "crc": crc, "ops": ops, "base": base, "base_class": cls, "sps": sps}
     # --- hypotheses of the theorems hold of the real log; model's savepoint offsets = observed log sizes
-    rc, out, err = vlib.run_lines(model, "chk %s %d\n" % (d, crc))
+    rc, out, err = vlib.run_lines(W.big_stack(model), "chk %s %d\n" % (d, crc))
     f = W.fields(out[0]) if out else {}
     want_sp = ",".join(str(e - 12) for e, _ in sps)
     if not (f.get("parse") == "ok" and f.get("roundtrip") == "true" and f.get("wf") == "true" and f.get("crc") == "true"
